@@ -42,6 +42,12 @@ from .terms import ABSENT, ERR, FALSE, TRUE, App, BoolOp, Cmp, Const, Fin, Opaqu
 ORDERED_DICT = ("collections.OrderedDict", "ordereddict.OrderedDict")
 
 
+def wrap_const_(x):
+    from .interp_expr import wrap_const
+
+    return wrap_const(x)
+
+
 class NonStatic(AnalysisError):
     """Iteration over a sequence the analysis cannot enumerate."""
 
@@ -856,10 +862,29 @@ class CallMixin(object):
                 elif not o.ordered:
                     self.event("plain_dict_iter", node, module, st, what="iteration over a plain dict")
                 return [(o.entries[k][0], Const(k)) for k in o.order]
-        if isinstance(v, Fin) and strish(v):
+        if isinstance(v, Fin):
             r = st.folder().restrict(v)
-            if isinstance(r, Const):
-                return [(TRUE, Const(ch)) for ch in r.v]
+            if isinstance(r, Const) and isinstance(r.v, (str, tuple, list)):
+                return [(TRUE, wrap_const_(ch)) for ch in r.v]
+            # a table of strings / sequences that all have the same length: element-wise tables
+            lens = set(len(x) if isinstance(x, str) else None for x in r.table.values())
+            if len(lens) == 1 and None not in lens:
+                n_ = lens.pop()
+                fo_ = st.folder()
+                return [(TRUE, fo_.fold(lambda s_, i=i: s_[i], [r])) for i in range(n_)]
+        if isinstance(v, App) and v.op == "cat":
+            from .interp_expr import piece_lengths
+
+            total = 0
+            okl = True
+            for p_ in v.args:
+                ls = piece_lengths(st, p_)
+                if ls is None or len(ls) != 1:
+                    okl = False
+                    break
+                total += list(ls)[0]
+            if okl:
+                return [(TRUE, self.simp(st, self.cat_index(st, v, i, node, module))) for i in range(total)]
         raise NonStatic("E5.loop", "iteration over non-static sequence %r" % (v,), node, module)
 
     def e_ListComp(self, st, env, node, module):
@@ -925,6 +950,28 @@ class StmtMixin(object):
                 o = st.heap[value.id]
                 if all(isinstance(g, Const) and truth_const(g.v) for g, _ in o.items):
                     value = TupleVal([v for _, v in o.items])
+            if isinstance(value, Fin) and all(isinstance(x, (tuple, list)) for x in value.table.values()):
+                # a table of sequences: arity mismatch is a ValueError under its condition
+                fo = st.folder()
+                n = len(target.elts)
+                r = fo.restrict(value)
+                if isinstance(r, Const):
+                    return self.bind(st, env, target, r, node, module)
+                bad = fo.fold(lambda x: len(x) != n, [r])
+                d = self.decide(st, bad)
+                if d is True:
+                    self.hazard(st, "ValueError", node, module, TRUE, "unpacking length mismatch")
+                    raise Dead()
+                if d is None:
+                    self.hazard(st, "ValueError", node, module, bad, "unpacking length mismatch for some inputs")
+                    self.assume(st, mk_not(bad))
+                    r = st.folder().restrict(value)
+                    if isinstance(r, Const):
+                        return self.bind(st, env, target, r, node, module)
+                fo = st.folder()
+                for i, t in enumerate(target.elts):
+                    self.bind(st, env, t, fo.fold(lambda x, i=i: x[i], [r]), node, module)
+                return
             if not isinstance(value, TupleVal):
                 if isinstance(value, (Opaque, App)):
                     self.event("may_raise", node, module, st, exc="ValueError")
@@ -1068,7 +1115,14 @@ class StmtMixin(object):
                 name = exc.name
             elif isinstance(exc, ExtVal):
                 name = exc.dotted
-        self.event("raise", s, module, st, exc=name)
+            if isinstance(s.exc, ast.Call):
+                # the message is evaluated before the exception is raised: it can itself raise
+                for a in list(s.exc.args) + [kw.value for kw in s.exc.keywords]:
+                    try:
+                        self.eval(st, env, a)
+                    except AnalysisError:
+                        pass
+        self.event("raise", s, module, st, exc=name, snapshot=(st.copy() if getattr(self, "try_depth", 0) > 0 else None))
         raise Dead()
 
     def s_Assert(self, s, st, env, module):
@@ -1152,6 +1206,11 @@ class StmtMixin(object):
         try:
             items = self.iter_values(st, it, s, module)
         except NonStatic:
+            hook = getattr(self, "input_loop_hook", None)
+            if hook is not None:
+                res = hook(s, st, env, module, it)
+                if res is not None:
+                    return res
             if self.havoc_allowed is None or not self.havoc_allowed(self.current_func, s):
                 raise
             return self.havoc_for(s, st, env, module, it)
@@ -1410,12 +1469,95 @@ class StmtMixin(object):
                         return "variable %s is modified on a path that asks again" % k
         return None
 
+    BUILTIN_EXC_BASES = {
+        "KeyError": ("LookupError", "Exception", "BaseException"),
+        "IndexError": ("LookupError", "Exception", "BaseException"),
+        "ValueError": ("Exception", "BaseException"),
+        "UnicodeError": ("ValueError", "Exception", "BaseException"),
+        "TypeError": ("Exception", "BaseException"),
+        "AttributeError": ("Exception", "BaseException"),
+        "AssertionError": ("Exception", "BaseException"),
+        "ZeroDivisionError": ("ArithmeticError", "Exception", "BaseException"),
+        "OverflowError": ("ArithmeticError", "Exception", "BaseException"),
+        "InvalidOperation": ("ArithmeticError", "Exception", "BaseException", "decimal.InvalidOperation", "DecimalException"),
+        "decimal.InvalidOperation": ("ArithmeticError", "Exception", "BaseException", "InvalidOperation", "DecimalException"),
+        "RuntimeError": ("Exception", "BaseException"),
+        "NameError": ("Exception", "BaseException"),
+        "StopIteration": ("Exception", "BaseException"),
+        "EOFError": ("Exception", "BaseException"),
+        "KeyboardInterrupt": ("BaseException",),
+        "Exception": ("BaseException",),
+    }
+
+    def exception_bases(self, name):
+        """Names a handler can use to catch an exception called `name`."""
+        if name is None:
+            return set()
+        out = {name, name.split(".")[-1]}
+        out |= set(self.BUILTIN_EXC_BASES.get(name, ()))
+        key = ("exc_hierarchy",)
+        memo = self.ctx.memo
+        if key not in memo:
+            try:
+                from .rules_parse import exception_hierarchy
+
+                memo[key] = exception_hierarchy(self.ctx)
+            except Exception:
+                memo[key] = {}
+        chain = memo[key].get(name.split(".")[-1])
+        if chain:
+            out |= set(chain)
+            for c in chain:
+                out |= set(self.BUILTIN_EXC_BASES.get(c, ()))
+            out |= {"Exception", "BaseException"}
+        return out
+
     def s_Try(self, s, st, env, module):
+        """try/except with exceptions as control flow: every modelled raise inside the body (explicit
+        raise, or an implicit-exception hazard under its condition) that a handler matches continues
+        in that handler from the state in which it was raised; it is then no longer an escape."""
+        from . import guards as G
+
         n0 = len(self.events)
-        outs = self.exec_block(s.body, st, env)
-        raised = [e for e in self.events[n0:] if e.kind in ("raise", "hazard", "may_raise")]
-        if raised and s.handlers:
-            raise AnalysisError("E5.stmt", "try/except around a modelled raise", s, module)
+        self.try_depth = getattr(self, "try_depth", 0) + 1
+        try:
+            try:
+                outs = self.exec_block(s.body, st, env)
+            except Dead:
+                outs = []
+        finally:
+            self.try_depth -= 1
+        if s.handlers:
+            handled = []
+            for e in list(self.events[n0:]):
+                if e.kind not in ("raise", "hazard") or e.data.get("snapshot") is None or e.data.get("handled"):
+                    continue
+                names = self.exception_bases(e.data.get("exc"))
+                target = None
+                for h in s.handlers:
+                    hn = G.handler_names(h)
+                    if h.type is None or any(x in names or x.split(".")[-1] in names or x == "*" for x in hn):
+                        target = h
+                        break
+                if target is None:
+                    continue
+                handled.append(e)
+                hst = e.data["snapshot"]
+                e.data["handled"] = True
+                if target.name:
+                    hst.heap[env.id].vars[target.name] = Opaque("exc:" + str(e.data.get("exc")))
+                saved_func = self.current_func
+                self.current_func = st.heap[env.id].func if env.id in st.heap else saved_func
+                try:
+                    try:
+                        outs = outs + self.exec_block(target.body, hst, env)
+                    except Dead:
+                        pass
+                finally:
+                    self.current_func = saved_func
+            if handled:
+                ids = set(id(e) for e in handled)
+                self.events[:] = [e for e in self.events if id(e) not in ids]
         res = []
         for o in outs:
             if o.status == "normal" and (s.orelse or s.finalbody):
